@@ -57,6 +57,11 @@ type plus struct {
 	Window  int      `json:"window,omitempty"`         // rows per VariantReader.Next (0 = 1024)
 	Late    bool     `json:"late_cursors,omitempty"`   // cursors below the root are created after the first Next
 	Evo     *evoSpec `json:"evolve,omitempty"`
+	// typed navigation (navigate.go): the paths whose cursors a second reader
+	// holds ("." or steps f<hex name> | e joined by "/"); NavAll: that reader
+	// also holds every cursor of the shredding schema
+	Nav    []string `json:"navigate,omitempty"`
+	NavAll bool     `json:"navigate_with_all_cursors,omitempty"`
 }
 
 func (p *plus) writerOptions() []parquet.WriterOption {
@@ -82,6 +87,12 @@ func (p *plus) text() string {
 	}
 	if p.Late {
 		parts = append(parts, "late-cursors")
+	}
+	if len(p.Nav) > 0 {
+		parts = append(parts, "navigate="+strings.Join(p.Nav, ","))
+		if p.NavAll {
+			parts = append(parts, "with-all-cursors")
+		}
 	}
 	return strings.Join(parts, " ")
 }
